@@ -169,7 +169,7 @@ class _GatedLock:
 
 
 class DecoSystem:
-    def __init__(self, db_path, idle_timeout=10.0, n_events=2, create_row=True, hold=(), send_yields=0):
+    def __init__(self, db_path, idle_timeout=10.0, n_events=2, create_row=True, hold=(), send_yields=0, nudge=False):
         m = _import()
         from llama_agents.server._runtime.event_interceptor import EventInterceptorDecorator
         from llama_agents.server._runtime.persistence_runtime import TickPersistenceDecorator
@@ -313,6 +313,44 @@ class DecoSystem:
                     sysm.in_step -= 1
                 return StopEvent(result="done") if sysm.answers >= n_events_ else InputRequiredEvent()
 
+        if nudge:
+            # the same workflow with an INTERNAL wake-up while it waits for input: a side step fails once and is retried
+            # 2 s later -- idle is announced, the retry wakes the run, idle is announced again, with no received tick between
+            from workflows.events import Event as _Event
+            from workflows.retry_policy import retry_policy as _rp, stop_after_attempt as _saa, wait_fixed as _wf
+
+            class Nudge(_Event):
+                pass
+            globals()["Nudge"] = Nudge          # (string annotations are resolved against the module's globals)
+            self.nudges = 0
+
+            class WFN(Workflow):
+                @step
+                async def start(self, ctx: Context, ev: StartEvent) -> InputRequiredEvent | Nudge:
+                    sysm.log({"a": "step", "name": "start"})
+                    ctx.send_event(Nudge())
+                    return InputRequiredEvent()
+
+                @step(retry_policy=_rp(wait=_wf(2), stop=_saa(3)))
+                async def nudge(self, ev: Nudge) -> None:
+                    sysm.nudges += 1
+                    sysm.log({"a": "step", "name": "nudge", "n": sysm.nudges})
+                    if sysm.nudges == 1:
+                        raise RuntimeError("not yet")
+                    return None
+
+                @step
+                async def answer(self, ctx: Context, ev: HumanResponseEvent) -> InputRequiredEvent | StopEvent:
+                    sysm.in_step += 1
+                    try:
+                        await asyncio.sleep(1.0)
+                        sysm.answers += 1
+                        sysm.outstanding.discard(str(ev.response))
+                        sysm.log({"a": "step", "name": "answer", "n": sysm.answers, "uid": str(ev.response)})
+                    finally:
+                        sysm.in_step -= 1
+                    return StopEvent(result="done") if sysm.answers >= n_events_ else InputRequiredEvent()
+            WF = WFN
         self.wf = None
         self.WF = WF
         self.run_id = None
@@ -403,7 +441,8 @@ class DecoSystem:
 def run_deco_case(db_path, case):
     """case: {label, idle_timeout, n_events, create_row, hold: [...], script: [[cmd, arg], ...]}"""
     s = DecoSystem(db_path, idle_timeout=case.get("idle_timeout", 10.0), n_events=case.get("n_events", 2),
-                   create_row=case.get("create_row", True), hold=case.get("hold", ()), send_yields=case.get("send_yields", 0))
+                   create_row=case.get("create_row", True), hold=case.get("hold", ()), send_yields=case.get("send_yields", 0),
+                   nudge=case.get("nudge", False))
     try:
         s.start()
         for cmd in case["script"]:
